@@ -6,7 +6,7 @@
    load factor LF >= 1, in particular for the LF >= 2 the property names; they cover block splits, merges
    (both outcomes) and rebalancing because they are proved about _update_block itself.
    `r = Ok tt` in the conclusions says that no IndexError / ValueError / OutOfFuel is reachable. *)
-From AB Require Import StoreTop StoreRun.
+From AB Require Import StoreTop StoreRefuse StoreRun.
 
 (* the mutators refine the list splice, keep the invariant, never raise, leave texts alone *)
 Theorem C07_splice_refines : forall LF s tokens ref del_end p q s' r,
@@ -136,3 +136,37 @@ Proof. exact run_ops_spec. Qed.
 
 Example C07_history_nonvacuous : Inv ex_s /\ ops_valid (abs ex_s) ex_ops /\ length ex_ops = 7%nat.
 Proof. exact (conj (proj1 ex_inv) (conj ex_ops_valid eq_refl)). Qed.
+
+(* Refusals (reuse guard `block.store is self and start <= (block.index, index) < end`; the model has one
+   store, so only the range part is modelled).  Arguments that break the contract of a duplicate-free
+   token list - some inserted token is in the store but outside the removed range [p, q) - are refused with
+   ValueError and the store is returned unchanged.  (A token listed twice in `tokens` is not checked by
+   the code; NoDup is a hypothesis.) *)
+Theorem C07_refusals : forall LF s tokens ref del_end p q,
+  Inv s -> ref_pos (abs s) ref p -> end_pos (abs s) del_end p q ->
+  NoDup tokens -> ~ valid_tokens (abs s) tokens p q ->
+  splice LF s tokens ref del_end = (s, Err ValueError).
+Proof. exact splice_refusals. Qed.
+
+Example C07_refusals_nonvacuous :
+  Inv ex_s /\ ref_pos (abs ex_s) (Some 3%positive) 2 /\ end_pos (abs ex_s) None 2 2 /\
+  NoDup [3%positive] /\ ~ valid_tokens (abs ex_s) [3%positive] 2 2.
+Proof.
+  split; [exact (proj1 ex_inv)|]. rewrite (proj2 ex_inv). split; [reflexivity|]. split; [reflexivity|].
+  split; [repeat constructor; intros []|].
+  intros [_ H]. destruct (H 3%positive (in_eq _ _)) as [Hn|Hr]; [apply Hn; cbn; auto|exact Hr].
+Qed.
+
+(* per token: every store token outside [p, q) among the inserted tokens is refused *)
+Theorem C07_refuses_outside_range : forall LF s tokens ref del_end p q t k,
+  Inv s -> ref_pos (abs s) ref p -> end_pos (abs s) del_end p q ->
+  In t tokens -> nth_error (abs s) k = Some t -> (k < p \/ q <= k)%nat ->
+  splice LF s tokens ref del_end = (s, Err ValueError).
+Proof. exact splice_refuses. Qed.
+
+Theorem C07_insert_after_refuses : forall LF s tokens ref p t,
+  Inv s ->
+  match ref with None => p = 0%nat | Some r0 => (1 <= p)%nat /\ nth_error (abs s) (p - 1) = Some r0 end ->
+  In t tokens -> In t (abs s) ->
+  insert_after LF s ref tokens = (s, Err ValueError).
+Proof. exact insert_after_refuses. Qed.
